@@ -83,6 +83,12 @@ CHECKS = {
    text="(a) Exhaustive sweep: for every pooled type with a Put accessor and every exported field, a value with that field (and once every field) filled with arbitrary content is released; the released object and the next Get (same object on a pinned goroutine) must equal a fresh value. (b) Generated statements are parsed after fully populated values of every pooled type were released through PutX/PutExpression/ReleaseAST; the tree must still equal the model tree. (c) Generated histories of parse/tokenize/derive-and-hold, release, churn on this and other goroutines, pooled-tokenizer reuse and direct pool draws: every held value must keep its snapshot, and values drawn from the pools must be pairwise distinct and not part of any tree still held.",
    note="Trusted: astdump as deep equality (capacities ignored); pool identity by goroutine pinning (counted). Goroutine interleavings in the churn action are the runtime's, not enumerated.",
    design="4/C09"),
+ "C18": dict(
+   technique="stateful property-based testing: generated JSON-RPC message histories against a real server over in-memory pipes with a UTF-16 reference document model; exhaustive enumeration of edit ranges on small documents",
+   level="exploration",
+   text="Generated-history search: up to 30 framed messages per history (document lifecycle with full/incremental/batched edits whose ranges are in range, past the end, inverted or negative, over ASCII, BMP and astral text; every request kind at arbitrary positions; unknown methods; requests without params; wrongly typed envelopes; malformed JSON; bad headers). After every message a sentinel request acts as a barrier and the invariants are checked: server alive, every outgoing frame well-formed with an exact Content-Length, exactly one response per request id and none otherwise, the server's copy of each document equals the reference model, and the last published diagnostics match the recovery parse of the model text in version, number and line. All (startLine, startChar, endLine, endChar) combinations over three small documents with an astral character are enumerated exhaustively.",
+   note="Trusted: sequential message handling (barrier); the reference model's reading of the protocol's clamping rules; edits outside the protocol (negative, inverted, inside a surrogate pair) only have to be survived.",
+   design="4/C18"),
 }
 
 def main():
